@@ -55,6 +55,7 @@ type WorkerResult struct {
 	Overruns   int            `json:"overruns"`
 	Hangs      int            `json:"hangs"`
 	Samples    []any          `json:"samples"`
+	Fidelity   []string       `json:"fidelity,omitempty"` // realkill cross-validation disagreements (warnings, not verdicts)
 	FirstSeed  uint64         `json:"firstSeed"`
 	LastSeed   uint64         `json:"lastSeed"`
 	Extra      map[string]int `json:"extra"`
@@ -480,6 +481,10 @@ func WorkerMain(t *testing.T) {
 	}
 	if job.Engine == "failstop" {
 		failStopWorker(t, &job)
+		return
+	}
+	if job.Engine == "realkill" {
+		realKillWorker(t, &job)
 		return
 	}
 	eng := engines[job.Engine]
